@@ -53,6 +53,12 @@ func (w *World) Leaf(serial *big.Int, cdp []string, aia []string) []*x509.Certif
 	return []*x509.Certificate{leaf, w.Int.Cert, w.Root.Cert}
 }
 
+// LeafAKI is Leaf with a chosen authorityKeyIdentifier form (see pki.CertOpts.AKIForm).
+func (w *World) LeafAKI(serial *big.Int, cdp []string, aia []string, akiForm string) []*x509.Certificate {
+	leaf := w.Int.LeafAKI(serial, cdp, aia, akiForm)
+	return []*x509.Certificate{leaf, w.Int.Cert, w.Root.Cert}
+}
+
 // OCSPStatus is what a scripted responder says about a serial.
 type OCSPStatus struct {
 	Status     int // ocsp.Good / ocsp.Revoked / ocsp.Unknown
